@@ -72,7 +72,7 @@ func c19Run(r *core.Run) {
 		o.Cfg.SLO = world.DrawNonEmpty(t, "c19.slo")
 	}
 	o.Cfg.Store = &world.SimCertStore{Certs: []*world.Cert{o.IdPCert}}
-	if !o.Build() {
+	if !o.PreHistory(r) || !o.Build() {
 		return
 	}
 	r.Sim.Advance(time.Duration(t.Int(1e9, "c19.subsec")))
